@@ -24,3 +24,6 @@ Proof. vm_compute. reflexivity. Qed.
 
 Lemma inplace_covers : inplace_covers_b = true.
 Proof. vm_compute. reflexivity. Qed.
+
+Lemma slot_discipline : slot_discipline_b = true.
+Proof. vm_compute. reflexivity. Qed.
